@@ -81,6 +81,9 @@ class Monitor(object):
     def on_attach(self, node, server, ind):
         nid = node.id_number
         self.hub.flags.add("service_started")
+        if ind in node.interrupted_individuals:
+            # restart of a customer interrupted by a pre-emptive shift end: served before fresh customers (C12's rule)
+            return
         # (a customer whose priority was raised while waiting pre-empts directly, without a discipline call;
         #  it is still subject to the priority/FIFO clauses of check_start)
         direct_preemptor = (self.hub.cur_event[2] == "class_change" and self.hub.cur_event[1] == nid
@@ -175,6 +178,20 @@ def focused(tier):
         out.append(cfg("cct prio preempt %s" % disc, fam, [node(c=1, discipline=disc, preempt="resume")],
                        {"A": klass([ARR], [SRV2], prio=1, cct={"B": [0.5, 1.5]}), "B": klass([[1.0, 2.0]], [SRV2], prio=0)},
                        K=2, features=["cct", "preempt_prio"]))
+    # pre-emptive priorities on top of a pre-emptive schedule with a zero-server shift, three levels: the high-priority
+    # customer that arrived during the zero shift waits behind the restarted low one; then a middle one arrives
+    for opt in ("resume", "restart"):
+        cl = {"A": klass([{"values": [0.5], "budget": 1}], [[4.0, 6.0]], prio=2), "B": klass([{"values": [3.5, 3.25], "budget": 1}], [[1.0, 2.0]], prio=1),
+              "C": klass([{"values": [2.5, 2.25], "budget": 1}], [[1.0, 2.0]], prio=0)}
+        out.append(cfg("prio preempt + sched preempt %s 3 levels" % opt, fam,
+                       [node(c={"sched": {"numbers": [1, 0], "ends": [2.0, 3.0], "preempt": opt}}, preempt=opt, discipline="FIFO")], cl,
+                       K=1, T=14.0, features=["preempt_prio", "preempt_sched", "priorities"]))
+    # timed class change between two classes of EQUAL priority while another level exists: position must be kept
+    for disc in ("FIFO", "LIFO"):
+        out.append(cfg("cct same priority + other level %s" % disc, fam, [node(c=1, discipline=disc)],
+                       {"A": klass([ARR], [SRV2], prio=1, cct={"B": [0.5, 1.5]}), "B": klass([None], [SRV2], prio=1),
+                        "C": klass([{"values": [1.0, 2.0], "budget": 1}], [SRV2], prio=0)}, K=3 if tier == "quick" else 4,
+                       D=5 if tier == "quick" else 8, features=["cct", "priorities"]))
     for disc in ("FIFO", "LIFO", "SIRO"):
         out.append(two_class_single("slotted 2class %s" % disc, fam, K=2, T=8.0, prios=(1, 0),
                                     c={"slotted": {"slots": [1.0, 2.0, 3.0], "sizes": [1, 2, 1], "capacitated": False, "preempt": False}},
